@@ -761,3 +761,213 @@ func RErrProp(c *core.Ctx) {
 		c.Anchor("calls of error-returning module functions in regexp2 / compat")
 	}
 }
+
+// ---------------------------------------------------------------------------
+// R-EXITFRESH: the clock goroutine decides to stop on a FRESH reading of the
+// clock's end.  extendClock raises clockEnd under the mutex and starts a new
+// goroutine only when fast.running is false; so between the read of clockEnd
+// that justifies stopping and the store `fast.running = false` the mutex must
+// be held throughout.  A value read before the sleep (lock released) and
+// compared afterwards lets a deadline registered meanwhile find running ==
+// true, start no clock — and then the old one exits anyway.
+// ---------------------------------------------------------------------------
+
+func RExitFresh(c *core.Ctx) {
+	c.Rule("R-EXITFRESH", "in runClock every path from a read of fast.clockEnd to the store fast.running = false is free of a Mutex.Unlock: the decision to stop and the announcement are one critical section, so no extendClock can slip in between", 1)
+	p := c.P
+	rc := p.SSAFunc(p.LookupFunc("", "runClock"))
+	running := p.LookupField("", "fastclock", "running")
+	clockEnd := p.LookupField("", "fastclock", "clockEnd")
+	read := p.SSAFunc(p.LookupFunc("", "atomicTime.read"))
+	if rc == nil || running == nil || clockEnd == nil || read == nil {
+		c.Anchor("runClock / fastclock.running / fastclock.clockEnd / atomicTime.read")
+		return
+	}
+	name := core.SSAName(rc)
+	c.Visit(name)
+	isUnlock := func(ins ssa.Instruction) bool {
+		call, ok := ins.(*ssa.Call)
+		if !ok {
+			return false
+		}
+		cal := call.Call.StaticCallee()
+		return cal != nil && (cal.String() == "(*sync.Mutex).Unlock" || cal.String() == "(*sync.RWMutex).Unlock")
+	}
+	isEndRead := func(ins ssa.Instruction) bool {
+		call, ok := ins.(*ssa.Call)
+		if !ok || call.Call.StaticCallee() != read || len(call.Call.Args) == 0 {
+			return false
+		}
+		fa, ok := call.Call.Args[0].(*ssa.FieldAddr)
+		return ok && core.FieldVarOfAddr(fa) == clockEnd
+	}
+	isStop := func(ins ssa.Instruction) bool {
+		st, ok := ins.(*ssa.Store)
+		if !ok || core.FieldVarOfAddr(st.Addr) != running {
+			return false
+		}
+		k, ok := st.Val.(*ssa.Const)
+		return ok && k.Value != nil && k.Value.String() == "false"
+	}
+	n := 0
+	for _, b := range rc.Blocks {
+		for idx, ins := range b.Instrs {
+			if !isEndRead(ins) {
+				continue
+			}
+			n++
+			// forward search; state: unlocked since the read?
+			type st struct {
+				b        *ssa.BasicBlock
+				i        int
+				unlocked bool
+			}
+			seen := map[[2]int]bool{}
+			stack := []st{{b, idx + 1, false}}
+			bad := false
+			for len(stack) > 0 && !bad {
+				cur := stack[len(stack)-1]
+				stack = stack[:len(stack)-1]
+				key := [2]int{cur.b.Index*2 + map[bool]int{false: 0, true: 1}[cur.unlocked], cur.i}
+				if seen[key] {
+					continue
+				}
+				seen[key] = true
+				unl := cur.unlocked
+				stop := false
+				for _, i2 := range cur.b.Instrs[cur.i:] {
+					if isEndRead(i2) {
+						stop = true // a fresh read starts its own search
+						break
+					}
+					if isUnlock(i2) {
+						unl = true
+					}
+					if isStop(i2) {
+						if unl {
+							bad = true
+						}
+						stop = true
+						break
+					}
+				}
+				if stop {
+					continue
+				}
+				for _, s := range cur.b.Succs {
+					stack = append(stack, st{s, 0, unl})
+				}
+			}
+			c.Check(!bad, fmt.Sprintf("%s / read #%d of clockEnd that can lead to stopping is in the same critical section as running = false", name, n), ins.Pos(), "a path from this read to `fast.running = false` releases the mutex in between: a deadline that extends the clock during that window sees running == true, starts no goroutine, and this one stops although the new end has not been reached")
+		}
+	}
+	if n == 0 {
+		c.Anchor("reads of fast.clockEnd in runClock")
+	}
+}
+
+// ---------------------------------------------------------------------------
+// R-SPLITSTRIDE: Split reports, after every piece of text, one entry per
+// capture group — always the same number, so a caller can re-join the pieces
+// and tell text from groups by position.  In the functions that build the
+// result of Split, the loop over a match's groups appends unconditionally.
+// ---------------------------------------------------------------------------
+
+func RSplitStride(c *core.Ctx) {
+	c.Rule("R-SPLITSTRIDE", "in Split and the helpers it calls, inside a loop over the groups of a match (an index or range loop over the result of Groups()) the append to the result is unconditional: one entry per group per match, whatever the group captured — an entry that is skipped for an empty or unset group changes the stride and the pieces no longer line up", 2)
+	p := c.P
+	root := p.Pkg("")
+	info := root.TypesInfo
+	groups := p.LookupFunc("", "Match.Groups")
+	split := p.SSAFunc(p.LookupFunc("", "Regexp.Split"))
+	if groups == nil || split == nil {
+		c.Anchor("Match.Groups / Regexp.Split")
+		return
+	}
+	reach := p.Reachable([]*ssa.Function{split})
+	n := 0
+	for _, fd := range p.FuncDecls(root) {
+		if fd.Body == nil || p.IsTestFile(fd.Pos()) {
+			continue
+		}
+		fnObj, _ := info.Defs[fd.Name].(*types.Func)
+		if fnObj == nil || !reach[p.SSAFunc(fnObj)] {
+			continue
+		}
+		name := core.DeclName(root, fd)
+		// variables holding Groups() results
+		gvars := map[types.Object]bool{}
+		ast.Inspect(fd.Body, func(x ast.Node) bool {
+			as, ok := x.(*ast.AssignStmt)
+			if !ok || len(as.Lhs) != len(as.Rhs) {
+				return true
+			}
+			for i, r := range as.Rhs {
+				if call, ok := ast.Unparen(r).(*ast.CallExpr); ok && core.IsCallTo(info, call, groups) {
+					if id, ok := as.Lhs[i].(*ast.Ident); ok {
+						gvars[info.ObjectOf(id)] = true
+					}
+				}
+			}
+			return true
+		})
+		if len(gvars) == 0 {
+			continue
+		}
+		mentionsG := func(e ast.Node) bool {
+			found := false
+			ast.Inspect(e, func(y ast.Node) bool {
+				if id, ok := y.(*ast.Ident); ok && gvars[info.ObjectOf(id)] {
+					found = true
+				}
+				if call, ok := y.(*ast.CallExpr); ok && core.IsCallTo(info, call, groups) {
+					found = true
+				}
+				return true
+			})
+			return found
+		}
+		ast.Inspect(fd.Body, func(x ast.Node) bool {
+			var body *ast.BlockStmt
+			switch l := x.(type) {
+			case *ast.ForStmt:
+				if (l.Cond != nil && mentionsG(l.Cond)) || (l.Init != nil && mentionsG(l.Init)) {
+					body = l.Body
+				}
+			case *ast.RangeStmt:
+				if mentionsG(l.X) {
+					body = l.Body
+				}
+			}
+			if body == nil {
+				return true
+			}
+			// appends anywhere in the body: each must be a direct statement of the body
+			direct := map[ast.Stmt]bool{}
+			for _, st := range body.List {
+				direct[st] = true
+			}
+			ast.Inspect(body, func(y ast.Node) bool {
+				as, ok := y.(*ast.AssignStmt)
+				if !ok || len(as.Rhs) != 1 {
+					return true
+				}
+				call, ok := ast.Unparen(as.Rhs[0]).(*ast.CallExpr)
+				if !ok {
+					return true
+				}
+				if id, ok := call.Fun.(*ast.Ident); !ok || id.Name != "append" {
+					return true
+				}
+				n++
+				c.Visit(name)
+				c.Check(direct[as], fmt.Sprintf("%s / group entry #%d is appended for every group", name, n), as.Pos(), "the append sits under a condition inside the loop over the groups: groups for which it is false get no entry, so the number of entries per match varies")
+				return true
+			})
+			return true
+		})
+	}
+	if n == 0 {
+		c.Anchor("loops over Match.Groups() that append to the result of Split")
+	}
+}
